@@ -1040,6 +1040,10 @@ def check_C02(tier, seed):
             flags = [rng.choice([1, 1, 1, 0]) for _ in lv]
             s = forest_sprite(lv, flags, rng)
             out.append((s, gen.encode(s, None, rng)))
+        # the complete (layer opacity, cel opacity) square of the opacity product (quick: a quarter of it, rotating with the seed)
+        for g in (range(64) if tier != "quick" else [(4 * k + seed) % 64 for k in range(16)]):
+            s = opacity_square_sprite(g)
+            out.append((s, gen.encode(s, None, rng)))
         return out
     return run_sprites("C02", tier, seed, 2, 300, 4000, dict(max_canvas=10, max_layers=8, max_frames=3, rich=False), [1, 22],
                        direct_C02,
@@ -1495,6 +1499,22 @@ def forest_sprite(levels: List[int], flags: List[int], rng: random.Random) -> di
     return {"width": W, "height": H, "depth": 32, "transparent": 0, "durations": [100], "speed": 100, "palette_chunks": [],
             "palette": None, "sprite_ud": None, "ext_files": [], "tilesets": tilesets if any(l["ltype"] == 2 for l in layers) else [],
             "layers": layers, "cels": cels, "tags": [], "has_tags_chunk": False, "slices": []}
+
+
+def opacity_square_sprite(g: int) -> dict:
+    """256 layers (layer opacity = layer index, blend mode = index mod 19) x 4 frames (cel opacity 4g .. 4g+3): every layer holds a
+    1 x 1 cel at x = layer index, so the 64 sprites g = 0..63 together enumerate the complete (layer opacity, cel opacity) square
+    of the opacity product, each pair over a transparent backdrop (where every mode shows the source with its alpha scaled)"""
+    layers = [{"flags": 1, "ltype": 0, "level": 0, "blend": i % 19, "opacity": i, "name": "o%d" % i, "tileset": 0, "ud": None,
+               "default_w": 0, "default_h": 0} for i in range(256)]
+    cels = {}
+    for f in range(4):
+        for i in range(256):
+            cels[(f, i)] = {"kind": "raw", "x": i, "y": 0, "w": 1, "h": 1, "opacity": 4 * g + f,
+                            "pixels": [((i * 7 + f) & 255, 200 - f, 50 + g, (255, 128, 254, 1)[(i + f + g) & 3])], "ud": None}
+    return {"width": 256, "height": 1, "depth": 32, "transparent": 0, "durations": [100] * 4, "speed": 100, "palette_chunks": [],
+            "palette": None, "sprite_ud": None, "ext_files": [], "tilesets": [], "layers": layers, "cels": cels, "tags": [],
+            "has_tags_chunk": False, "slices": []}
 
 
 def direct_C09(s, data, blk) -> List[str]:
